@@ -8,7 +8,7 @@ use serde_json::{json, Value};
 use crate::engine::{catch, h64, par_range, run_generated, Ctx, Stats};
 use crate::oracle::page::{bit_pos, bpc, data_len, new_bytes, total_len, REAL_SIZES};
 
-pub const RULE: &str = "sizes: every width x height in 0..=32 x 0..=34 (quick) / 0..=64 x 0..=48 (thorough), the 11 real sizes, 1x255, 255x1, 300x9, 1000x64; for each size: new-page bytes for several ids (all 256 ids on selected sizes) against the closed-form layout, every pixel set alone on a blank page must flip exactly bit y%8 of byte 4+x*ceil(h/8)+y/8 (bijection pixels<->bits), from_bytes with candidate lengths {0, total-16, total-1, total, total+1, total+16, unpadded} must succeed exactly for the padded length, expose exactly the given bytes and equal the page that produced them (also after generated edits). Non-trivial = height not a multiple of 8, or data already on a 16-byte boundary, or >= 2 bytes per column; distinct by size (and content hash for generated cases)";
+pub const RULE: &str = "sizes: every width x height in 0..=32 x 0..=34 (quick) / 0..=64 x 0..=48 (thorough), the 11 real sizes, 1x255, 255x1, 300x9, 1000x64 and pages taller than 256 rows (2x257, 3x300, 1x1030); for each size: new-page bytes for several ids (all 256 ids on selected sizes) against the closed-form layout, every pixel set alone on a blank page must flip exactly bit y%8 of byte 4+x*ceil(h/8)+y/8 (bijection pixels<->bits), from_bytes with candidate lengths {0, total-16, total-1, total, total+1, total+16, unpadded} must succeed exactly for the padded length, expose exactly the given bytes and equal the page that produced them (also after generated edits). Non-trivial = height not a multiple of 8, or data already on a 16-byte boundary, or >= 2 bytes per column; distinct by size (and content hash for generated cases)";
 pub const ASSUMPTIONS: &[&str] = &["the closed-form layout in oracle/page.rs is a correct reading of the C07 statement"];
 
 #[derive(Serialize, Deserialize, Debug, Clone, PartialEq, Eq, Hash)]
@@ -194,7 +194,7 @@ pub fn run(ctx: &Ctx) {
     ctx.part_done("box", true, json!({"box": [bw, bh], "ids": 5, "what": "new-page bytes, every pixel's bit, from_bytes length candidates"}));
 
     let mut sizes: Vec<(u32, u32)> = REAL_SIZES.to_vec();
-    sizes.extend_from_slice(&[(1, 255), (255, 1), (300, 9), (1000, 64), (0, 0), (7, 0), (0, 7)]);
+    sizes.extend_from_slice(&[(1, 255), (255, 1), (300, 9), (1000, 64), (0, 0), (7, 0), (0, 7), (2, 256), (2, 257), (3, 300), (1, 1030), (2, 65537 / 64)]);
     par_range(ctx, "real-and-large-sizes", sizes.len() as u64, |i, st| {
         let (w, h) = sizes[i as usize];
         let c = SizeCase { w, h, id: 0xA5 };
@@ -229,7 +229,7 @@ pub fn run(ctx: &Ctx) {
                 prop_oneof![
                     10 => (0..=bw, 0..=bh),
                     4 => proptest::sample::select(REAL_SIZES.to_vec()),
-                    1 => proptest::sample::select(vec![(1u32, 255u32), (255, 1), (300, 9), (1000, 64)]),
+                    1 => proptest::sample::select(vec![(1u32, 255u32), (255, 1), (300, 9), (1000, 64), (2, 257), (3, 300), (1, 1030)]),
                 ],
                 any::<u64>(),
                 proptest::collection::vec((any::<u16>(), any::<u16>(), any::<bool>()), 0..30),
